@@ -13,6 +13,7 @@ Definition cov_rd (st : state) (j : item) (x : rd) : Prop :=
   | RObj c => In (NObj c, node_of j) (s_edges st)
   | RAttr r => In (r, j) (s_redges st)
   | RName c r => c = fst j \/ In (NObj c, node_of j) (s_edges st)
+  | RMask => False
   end.
 
 (** coverage of the reads made so far by the frame of cells [me] at depth
@@ -22,7 +23,7 @@ Definition cov_pending (st : state) (nc : option item) (me : cid) (d : nat) (x :
   | None => True
   | Some j =>
       match x with
-      | RItem _ | RObj _ => cov_rd st j x
+      | RItem _ | RObj _ | RMask => cov_rd st j x
       | RAttr r => In (r, j) (s_redges st) \/ In (d, r) (s_refstack st)
       | RName c r => c = me \/ In (NObj c, node_of j) (s_edges st)
       end
@@ -75,6 +76,7 @@ Proof.
   - intros E. now apply A1.
   - intros E. now apply A3.
   - intros [E|E]; [now left|right; now apply A1].
+  - intros [].
 Qed.
 
 (** * nearest_cached and is_cached depend on the cells only *)
@@ -495,7 +497,7 @@ Proof.
     + pinv2. exact H2.
   - intros st args locs whole rest idx r st' ln H Hs.
     destruct rest as [|s more]; simpl in H; [pinv2; assumption|].
-    destruct s as [e|e h].
+    destruct s as [e|e h|e fc].
     + destruct (eval_expr f st args locs (stmt_line whole idx) e) as [[v|k|] st1] eqn:E1; pinv2; eauto.
     + destruct (eval_expr f st args locs (stmt_line whole idx + 1) e) as [[v|k|] st1] eqn:E1.
       * eauto.
@@ -504,6 +506,19 @@ Proof.
         destruct (eval_expr f (upd_rolled st1 []) args locs (stmt_line whole idx + 3) h) as [[v|k2|] st2] eqn:E2.
         -- pose proof (IHe _ _ _ _ _ _ _ E2 H1) as H2'. eauto.
         -- pinv2. eauto.
+        -- pinv2. eauto.
+      * pinv2. eauto.
+    + destruct (eval_expr f st args locs (stmt_line whole idx + 1) e) as [[v|k|] st1] eqn:E1.
+      * pose proof (IHe _ _ _ _ _ _ _ E1 Hs) as H1.
+        destruct (eval_expr f st1 args locs (stmt_line whole idx + 3) fc) as [[w|k2|] st2] eqn:E2.
+        -- pose proof (IHe _ _ _ _ _ _ _ E2 H1) as H2'. eauto.
+        -- pinv2. eauto.
+        -- pinv2. eauto.
+      * pose proof (IHe _ _ _ _ _ _ _ E1 Hs) as H1.
+        destruct (eval_expr f (upd_rolled st1 []) args locs (stmt_line whole idx + 3) fc) as [[w|k2|] st2] eqn:E2.
+        -- pose proof (IHe _ _ _ _ _ _ _ E2 H1) as H2'. pinv2. exact H2'.
+        -- pose proof (IHe _ _ _ _ _ _ _ E2 H1) as H2'. pinv2.
+           destruct (ekind_eqb k KDeep); exact H2'.
         -- pinv2. eauto.
       * pinv2. eauto.
 Qed.
